@@ -2292,6 +2292,7 @@ fn main() {
             let prefix = format!("{}.", label);
             let mut n = 0usize; let mut nontrivial = 0usize;
             let mut first: Vec<(String, String)> = vec![];
+            let mut all: Vec<(String, Vec<String>)> = vec![];   // per violated label: every scenario that violates it (capped), so that a finding pinned to some scenarios does not hide the others
             let mut per_family: Vec<(String, usize)> = vec![];
             for (fam, gen, run) in families() {
                 // only the families that can report a clause of this property are run (C10: all of them - any call may panic)
@@ -2302,12 +2303,20 @@ fn main() {
                     n += 1;
                     if let Ok(v) = run(&sc) {
                         nontrivial += 1;
-                        for l in v { if (l.starts_with(&prefix) || (label == "C10" && l == "C10.safety")) && !first.iter().any(|(x, _)| *x == l) { first.push((l, format!("{}:{}", fam, sc))); } }
+                        for l in v { if l.starts_with(&prefix) || (label == "C10" && l == "C10.safety") {
+                            let id = format!("{}:{}", fam, sc);
+                            match all.iter_mut().find(|(x, _)| *x == l) { Some((_, scs)) => { if scs.len() < 400 { scs.push(id.clone()); } } None => all.push((l.clone(), vec![id.clone()])) }
+                            if !first.iter().any(|(x, _)| *x == l) { first.push((l, id)); }
+                        } }
                     }
                 }
             }
             let fams: Vec<String> = per_family.iter().map(|(f, c)| format!("\"{}\":{}", f, c)).collect();
-            let viol: Vec<String> = first.iter().map(|(l, s)| format!("{{\"label\":\"{}\",\"scenario\":\"{}\"}}", l, s.replace('\\', "\\\\").replace('"', "\\\""))).collect();
+            let esc = |s: &String| s.replace('\\', "\\\\").replace('"', "\\\"");
+            let viol: Vec<String> = first.iter().map(|(l, s)| {
+                let scs: Vec<String> = all.iter().find(|(x, _)| x == l).map(|(_, v)| v.iter().map(|x| format!("\"{}\"", esc(x))).collect()).unwrap_or_default();
+                format!("{{\"label\":\"{}\",\"scenario\":\"{}\",\"all\":[{}]}}", l, esc(s), scs.join(","))
+            }).collect();
             println!("{{\"scenarios\":{},\"executed\":{},\"families\":{{{}}},\"violations\":[{}]}}", n, nontrivial, fams.join(","), viol.join(","));
         }
         "selftest" => {
